@@ -78,6 +78,7 @@ type ltRec struct {
 	callN      int64
 	injected   int64
 	wInUpdate  int32
+	cur        *Gate // the gate of the live instance (nil while the process is "down")
 }
 
 // faultSite names the wallet functions on the stack of the storage call that is made to fail (diagnosis only).
@@ -121,12 +122,17 @@ var ltPoints = map[string]string{
 }
 
 // gate is called at the scheduling points of the follower and the worker (on their goroutines).
-func (r *ltRec) gate(point string) {
+func (r *ltRec) gate(g *Gate, point string) {
 	ev, ok := ltPoints[point]
 	if !ok {
 		return
 	}
 	r.mu.Lock()
+	if g != r.cur {
+		// a goroutine of an instance that has "crashed": nothing it does is recorded any more
+		r.mu.Unlock()
+		return
+	}
 	if ev[0] == 'h' {
 		r.roles[goid()] = "H"
 	} else {
@@ -213,9 +219,16 @@ func (r *ltRec) digest(tx mwdb.DBTransaction, e *ltEvent) error {
 }
 
 func (r *ltRec) hooks() dbwrap.Hooks {
+	db := r.w.DB
 	return dbwrap.Hooks{
 		BeforeCommit: func(n int64, tx mwdb.DBTransaction) {
 			r.mu.Lock() // released in AfterCommit
+			if db.Frozen() {
+				// the instance "crashed" while this commit waited for the mutex: the wrapper abandons the commit
+				// and does not call AfterCommit
+				r.mu.Unlock()
+				return
+			}
 			e := &ltEvent{Ev: "commit", Role: r.role()}
 			if e.Role == "A" {
 				r.opN++
@@ -241,6 +254,9 @@ func (r *ltRec) hooks() dbwrap.Hooks {
 			r.mu.Unlock()
 		},
 		OnCall: func(idx int64, kind string) error {
+			if db.Frozen() {
+				return nil // a goroutine of an instance that has "crashed"
+			}
 			if kind == "rollback" {
 				r.mu.Lock()
 				role := r.role()
@@ -285,6 +301,135 @@ func (r *ltRec) hooks() dbwrap.Hooks {
 			return dbwrap.ErrInjected
 		},
 	}
+}
+
+// idle: the last scheduling point the follower and the worker of the live instance have logged is the top of their loops.
+func (r *ltRec) idle() bool {
+	r.mu.Lock()
+	defer r.mu.Unlock()
+	h, w := "h.top", "w.top"
+	for i := len(r.events) - 1; i >= 0 && (h == "h.top" || w == "w.top"); i-- {
+		e := r.events[i].Ev
+		if e == "restarted" || e == "Crash" {
+			break
+		}
+		if len(e) > 2 && e[1] == '.' {
+			if e[0] == 'h' && h == "h.top" {
+				if e != "h.top" {
+					return false
+				}
+				h = ""
+			}
+			if e[0] == 'w' && w == "w.top" {
+				if e != "w.top" {
+					return false
+				}
+				w = ""
+			}
+		}
+	}
+	return true
+}
+
+// crashStep performs Crash / Restart / RestartCrash(k) of a history while everything runs freely.
+//   Crash        the database of the running instance is frozen at whatever moment this is - possibly in the middle
+//                of a step, whose commit then fails - and the "Crash" line is logged under the same mutex, so that no
+//                commit line of the dead instance can follow it; its goroutines are abandoned and no longer recorded
+//   Restart      a fresh manager on the crash image; Start's catch-up commits are recorded as commits of the API call
+//                "Restart", then a "restarted" line; follower and worker of the new instance run freely
+//   RestartCrash the catch-up dies after its k-th commit
+func (r *ltRec) crashStep(s *Step) error {
+	w := r.w
+	switch s.A {
+	case "Crash":
+		r.mu.Lock()
+		old := w.G
+		w.DB.Freeze()
+		r.add(ltEvent{Ev: "Crash"})
+		r.roles = map[int64]string{}
+		r.cur = nil
+		r.mu.Unlock()
+		// the dead instance's goroutines park at their next scheduling point for good (a worker whose task keeps
+		// failing on the frozen database would otherwise spin for the rest of the process) and are no longer recorded
+		old.mu.Lock()
+		old.rec = nil
+		old.open = false
+		old.mu.Unlock()
+		// a killed process reads nothing any more: before the dead instance's database handle is closed (for the
+		// snapshot), its goroutines must have run into their gates (or be blocked in the hand-shake, reading nothing)
+		for deadline := time.Now().Add(5 * time.Second); time.Now().Before(deadline); time.Sleep(200 * time.Microsecond) {
+			if atomic.LoadInt32(&old.busyH) == 0 && (atomic.LoadInt32(&old.busyW) == 0 || time.Until(deadline) < 4*time.Second) {
+				break
+			}
+		}
+		return w.Crash()
+	case "Restart", "RestartCrash":
+		if !w.down {
+			// the free-running instance was further along than the history assumed and an earlier "restart that dies
+			// during its catch-up" ran to completion: the process is up - it dies now
+			if err := r.crashStep(&Step{A: "Crash"}); err != nil {
+				return err
+			}
+		}
+		inner, err := mwdb.OpenDB("leveldb", w.dbPath)
+		if err != nil {
+			return fmt.Errorf("wallet database does not open after the crash: %v", err)
+		}
+		w.DB = dbwrap.Wrap(inner)
+		if err := w.openManager(); err != nil {
+			return fmt.Errorf("wallet does not open after the crash: %v", err)
+		}
+		r.mu.Lock()
+		r.op, r.opW, r.opN = "Restart", "", 0
+		r.mu.Unlock()
+		hooks := r.hooks()
+		db := w.DB
+		if s.A == "RestartCrash" {
+			inner := hooks.AfterCommit
+			k := int64(s.K)
+			base := db.Commits()
+			hooks.AfterCommit = func(n int64, err error) {
+				if n-base == k {
+					db.Freeze() // under the recorder's mutex (held from BeforeCommit to the end of the inner hook)
+				}
+				inner(n, err)
+			}
+		}
+		db.SetHooks(hooks)
+		// the gates of the new instance are closed: Start parks follower and worker at the top of their loops
+		if err := w.start(); err != nil {
+			if s.A == "RestartCrash" && db.Frozen() {
+				r.mu.Lock()
+				r.add(ltEvent{Ev: "Crash"})
+				r.op, r.opN = "", 0
+				r.mu.Unlock()
+				return w.Crash()
+			}
+			return fmt.Errorf("wallet does not start after the crash: %v", err)
+		}
+		if s.A == "RestartCrash" && db.Frozen() {
+			// it died right after the LAST commit of the catch-up: Start returned, the goroutines are parked at their gates
+			r.mu.Lock()
+			r.add(ltEvent{Ev: "Crash"})
+			r.op, r.opN = "", 0
+			r.mu.Unlock()
+			return w.Crash()
+		}
+		w.down = false
+		r.mu.Lock()
+		r.op, r.opN = "", 0
+		r.add(ltEvent{Ev: "restarted"})
+		r.mu.Unlock()
+		r.mu.Lock()
+		r.cur = w.G
+		r.mu.Unlock()
+		w.G.mu.Lock()
+		w.G.rec = r
+		w.G.mu.Unlock()
+		w.G.Open()
+		return nil
+	}
+	return fmt.Errorf("harness: not a crash step: %s", s.A)
 }
 
 // chain performs a chain action of the harness thread and records it, atomically with respect to the log.
